@@ -82,7 +82,7 @@ def run(rep, tier, seed, model_ok=True, effort=1):
     n = (30 if tier == "quick" else 500) * effort
     rep.rule = ("generated projects (consistent line endings) x flag sets x v2/legacy: `update --dry` (files must stay byte-identical, no mutating VCS "
                 "command), then the printed unified diff is applied by a strict applier and compared with a real run on an identical copy; exit codes "
-                "must agree when dry exits 0; non-trivial = distinct project whose dry run exits 0")
+                "must agree when dry exits 0; scripted layouts; dry and real as processes under an ASCII locale; a configured file that is not valid UTF-8; non-trivial = distinct project whose dry run exits 0")
     items, meta = [], []
     scripted = rwgen.scripted_specs()
     for i in range(n + len(scripted)):
